@@ -5,6 +5,7 @@ import (
 	"go/token"
 	"go/types"
 	"sort"
+	"strings"
 
 	"golang.org/x/tools/go/ssa"
 )
@@ -345,6 +346,11 @@ func checkC02(w *World) {
 	}
 	w.floor(P, "R02.7", 2)
 
+	// R02.8 no success return before a child was evaluated
+	w.noBypass(P, f, r)
+	// a predicate on a filter expression numbers the node-set in document order: unions are forward-normalised
+	w.include(P, "C03", "R03.3", "R03.5", "R03.6")
+
 	// R02.6
 	w.perContextNode(P, f, r)
 }
@@ -541,6 +547,113 @@ func (w *World) handlerKind(h *ssa.Function, r *Roles) (string, string) {
 		return "leaf", "evaluates no child"
 	}
 	return "unknown", fmt.Sprintf("%d child evaluations, not the two-children patterns", len(evals))
+}
+
+// noBypass: in a handler that evaluates children, no path from the entry reaches a nil-error return without
+// evaluating a child (calling the dispatcher or a helper that does) — except through the exit of a loop over
+// the children list (the grammar guarantees the list is not empty), the exit of a loop over the node-set whose body does the
+// evaluation, and the failed branch of the type assertion on the context result.
+func (w *World) noBypass(P string, f *Facts, r *Roles) {
+	docRule(P, "R02.8", "D", "a handler that evaluates children never returns success before evaluating one: no path from its entry to a nil-error return bypasses every child evaluation (an 'empty node-set: nothing to do' shortcut skips function steps, whose value does not depend on the node-set being non-empty, and predicates of filter expressions).")
+	evaluates := func(c *ssa.Call) bool {
+		sc := staticCallee(c)
+		if sc == nil {
+			return false
+		}
+		if sc == r.ExecContext {
+			return true
+		}
+		if fnPkgKey(sc) != "exec" {
+			return false
+		}
+		for g := range staticReach(sc, func(x *ssa.Function) bool { return fnPkgKey(x) == "exec" && x != r.ExecContext }) {
+			found := false
+			allInstrs(g, func(in ssa.Instruction) {
+				if c2, ok := in.(*ssa.Call); ok && staticCallee(c2) == r.ExecContext {
+					found = true
+				}
+			})
+			if found {
+				return true
+			}
+		}
+		return false
+	}
+	byFn := f.handlersByFn()
+	var fns []*ssa.Function
+	for fn := range byFn {
+		fns = append(fns, fn)
+	}
+	sort.Slice(fns, func(i, j int) bool { return fns[i].Name() < fns[j].Name() })
+	n := 0
+	for _, h := range fns {
+		has := false
+		allInstrs(h, func(in ssa.Instruction) {
+			if c, ok := in.(*ssa.Call); ok && evaluates(c) {
+				has = true
+			}
+		})
+		if !has {
+			continue
+		}
+		n++
+		bypass := ""
+		seen := map[*ssa.BasicBlock]bool{}
+		var walk func(b *ssa.BasicBlock)
+		walk = func(b *ssa.BasicBlock) {
+			if seen[b] {
+				return
+			}
+			seen[b] = true
+			for _, in := range b.Instrs {
+				switch x := in.(type) {
+				case *ssa.Call:
+					if evaluates(x) {
+						return
+					}
+				case *ssa.Return:
+					if len(x.Results) == 1 && isNilConst(x.Results[0]) {
+						bypass = w.pos(x.Pos())
+					}
+					return
+				case *ssa.If:
+					// the exit edge of a counting loop whose body evaluates a child: zero iterations mean an empty
+					// children list (excluded by the grammar) or an empty node-set (nothing to evaluate for)
+					if bo, ok := x.Cond.(*ssa.BinOp); ok && bo.Op == token.LSS && isLenOf(bo.Y, nil) && len(b.Succs) == 2 {
+						bodyEvaluates := false
+						for _, lb := range h.Blocks {
+							if b.Succs[0].Dominates(lb) {
+								for _, lin := range lb.Instrs {
+									if c, ok := lin.(*ssa.Call); ok && evaluates(c) {
+										bodyEvaluates = true
+									}
+								}
+							}
+						}
+						if bodyEvaluates {
+							walk(b.Succs[0])
+							return
+						}
+					}
+					// the failed branch of the type assertion on the context result (never taken inside a path)
+					if ex, ok := x.Cond.(*ssa.Extract); ok && ex.Index == 1 && len(b.Succs) == 2 {
+						if ta, ok := ex.Tuple.(*ssa.TypeAssert); ok && ta.CommaOk {
+							walk(b.Succs[0])
+							return
+						}
+					}
+				}
+			}
+			for _, s := range b.Succs {
+				walk(s)
+			}
+		}
+		walk(h.Blocks[0])
+		nts := byFn[h]
+		sort.Strings(nts)
+		w.check(P, "R02.8", "handler "+h.Name()+" ("+strings.Join(nts, ",")+")", h.Pos(), bypass == "", "success return reachable without evaluating any child at "+orNone(bypass))
+	}
+	w.floor(P, "R02.8", 8)
 }
 
 // instrAfter: b is executed after a (same block later, or in a block dominated by a's block).
@@ -812,7 +925,7 @@ func checkC18(w *World) {
 		w.check(P, "R18.4", "function call receives the current context", h.Fn.Pos(), ok, fmt.Sprintf("the function value is called with the handler's own context: %v", ok))
 	}
 	w.floor(P, "R18.4", 1)
-	w.include(P, "C02", "R02.4") // steps thread the node-set left to right, every step is evaluated
+	w.include(P, "C02", "R02.4", "R02.8") // steps thread the node-set left to right, every step is evaluated
 	w.perContextNode(P, f, r)
 	// re-label the shared obligation for this property
 	for _, o := range w.Obs {
